@@ -142,7 +142,7 @@ class Skeleton:
                                                    self.vertices[edge_0[0]])
 
             its_edges = self.vertices[vertex_id_to_delete].ownEdges
-            for edge_id in its_edges:
+            for edge_id in its_edges.copy():
                 del self.edges[edge_id]
 
             del self.vertices[vertex_id_to_delete]
@@ -177,7 +177,7 @@ class Skeleton:
                 cells_to_remove.append(c.id)
                 for v in c.vertices:
                     # remove edges
-                    for e in v.ownEdges:
+                    for e in v.ownEdges.copy():
                         del self.edges[e]
                     # remove vertices
                     try:
